@@ -69,7 +69,7 @@ PROPS["C05"] = {
     "signature": _signature,
     "trusted": ["Go: bufio.Reader.Read/ReadByte/ReadBytes, net.Conn, strconv.Atoi/ParseInt, strings.Split/ToLower (ASCII) semantics as modelled",
                 "pkg/libs/io/pipe is a lossless FIFO (C09)",
-                "the RDB consumer reads exactly the n announced bytes: proved for the loader model (C01 parse_exact, any bytes behind the checksum), "
+                "the RDB consumer reads exactly the n announced bytes: proved for the loader model (rdb_consumer_exact / rdb_consumer_takes_n from C01's parse_exact: any bytes behind the checksum), "
                 "checked on utils.NewRDBLoader by the handover cases"],
     "assumptions": ["status words are ASCII (a non-ASCII word is reported as `unmodelled`, never generated)",
                     "offsets stay below 2^63-1 (no int64 wrap-around of offset+1)",
